@@ -148,6 +148,15 @@ def run(rec, hub, tier, seed, shard, nshards, budget):
     pairs = list(itertools.product(subs, subs))
     space = f"all {len(pairs)} ordered pairs of ordered subsets of {letters} x 7 binary operators x {len(patterns)} length patterns x {len(regimes)} regimes"
     rec.exhaustive_spaces[space] = True
+    # scalars, unary, integer dtypes: every ordered subset
+    for pat in range(len(patterns)):
+        U = gen.universe(fd, dict(zip(letters, patterns[pat])))
+        for si, la in enumerate(subs):
+            if (si + pat) % nshards != shard or not budget.ok():
+                continue
+            rng = case_nprng(seed, "c01.scalar", 0, f"{si}.{pat}")
+            rec.set_case(driver="c01.scalar", seed=seed, tier=tier, shard=shard, nshards=nshards, idx=si, pattern=pat, a=la)
+            do_scalars(rec, hub, U, la, rng)
     n = 0
     work = [(pi, pat) for pat in range(len(patterns)) for pi in range(len(pairs))]
     for w, (pi, pat) in enumerate(work):
@@ -176,15 +185,6 @@ def run(rec, hub, tier, seed, shard, nshards, budget):
                 continue
             rec.set_case(driver="c01.pair5", seed=seed, tier=tier, shard=shard, nshards=nshards, idx=j, a=la, b=lb)
             do_pair(rec, hub, U5, la, lb, ("tagged", "real"), case_nprng(seed, "c01.pair5", shard, j + 1))
-    # scalars, unary, integer dtypes: every ordered subset
-    for pat in range(len(patterns)):
-        U = gen.universe(fd, dict(zip(letters, patterns[pat])))
-        for si, la in enumerate(subs):
-            if (si + pat) % nshards != shard or not budget.ok():
-                continue
-            rng = case_nprng(seed, "c01.scalar", 0, f"{si}.{pat}")
-            rec.set_case(driver="c01.scalar", seed=seed, tier=tier, shard=shard, nshards=nshards, idx=si, pattern=pat, a=la)
-            do_scalars(rec, hub, U, la, rng)
 
 
 def replay(rec, hub, case):
